@@ -611,7 +611,15 @@ pub fn run_with(cli: Cli, extra: &dyn Fn(&Report)) -> ! {
                     case.horizon_ms = 200_000;
                     let base = crate::sim::run(&case);
                     let Some(frame) = base.packets.iter().position(|(_, p)| p.kind() == "ConfDisconnect") else {
-                        common::machinery("C06: a silent client was not sent the timeout Disconnect in the undisturbed run");
+                        if first == 1 {
+                            rep.violation(Violation {
+                                key: "packet-after-the-final-disconnect".into(),
+                                text: format!("a silent client, routing latencies {lat:?}: it was sent {:?} ({:?}); a Keep Alive and then the timeout Disconnect are due", base.kinds(), base.result),
+                                replay: json!({"earlier": "silent-client", "lat": lat, "secret": secret}),
+                                weight: 8,
+                            });
+                        }
+                        continue;
                     };
                     // (the undisturbed run itself: one Keep Alive, then exactly one Disconnect, then nothing)
                     let tail: Vec<&str> = base.kinds().into_iter().skip_while(|k| *k != "LoginSuccess").skip(1).collect();
